@@ -41,6 +41,7 @@ import (
 	"go.miragespace.co/specter/util/hashcash"
 
 	"github.com/twitchtv/twirp"
+	"golang.org/x/net/idna"
 	"go.uber.org/zap"
 )
 
@@ -391,6 +392,16 @@ func hostOf(class string, base string) hostForm {
 		return hostForm{"svc." + strings.ToUpper(apexZone), "svc." + apexZone}
 	case "acme":
 		return hostForm{"svc." + acmeZone, "svc." + acmeZone}
+	case "apexspaced":
+		return hostForm{"svc." + apexZone[:2] + " " + apexZone[2:], "svc." + apexZone}
+	case "acmespaced":
+		return hostForm{"svc." + acmeZone[:3] + "\t" + acmeZone[3:], "svc." + acmeZone}
+	case "unicode":
+		puny, err := idna.ToASCII("b\u00fccher." + base)
+		if err != nil {
+			panic(err)
+		}
+		return hostForm{"b\u00fccher." + base, puny}
 	}
 	panic("host class " + class)
 }
@@ -425,7 +436,12 @@ func (w *world) step(callerName, method string, hf hostForm, cname, proofKind st
 	}
 	w.res.mu.Unlock()
 	// the proof is solved for the name the server will verify it against (the normalized request name)
-	proof := w.pb.variant(proofKind, hf.norm, salt)
+	var proof *protocol.ProofOfWork
+	if proofKind == "validsent" { // a real proof for the string as sent
+		proof = w.pb.variant("valid", hf.sent, salt)
+	} else {
+		proof = w.pb.variant(proofKind, hf.norm, salt)
+	}
 	ob := stepObs{Pre: w.holder(hf.norm), Norm: hf.norm}
 	var err error
 	switch method {
